@@ -277,6 +277,9 @@ def monitor(cfg, ops, trace):
             return f"op {k}: func_count {st['fc']} != valid calls {fc}"
         if len(st["rows"]) != len(recs):
             return f"op {k}: {len(st['rows'])} rows logged, {len(recs)} distinct recorded points expected"
+        if o["op"] != "finalize" and st.get("X_max_idx") is not None and st["X_max_idx"] != st["Xn"]:
+            # the extent other components read (training-set selection, candidate filter) covers every record, also after a growth
+            return f"op {k}: X_max_idx = {st['X_max_idx']} but the last record is row {st['Xn']} (capacity {st['cap']}): the newest record is invisible to readers of the log"
         for i, (row, r) in enumerate(zip(st["rows"], recs)):
             xo, x, yo, y, s2, n = row
             if x != r[0]:
